@@ -76,6 +76,14 @@ func leanStr(s string) string {
 	return b.String()
 }
 
+func leanList(l []string) string {
+	var parts []string
+	for _, s := range l {
+		parts = append(parts, leanStr(short(s)))
+	}
+	return "[" + strings.Join(parts, ", ") + "]"
+}
+
 // short name: strip the module path
 func short(n string) string { return strings.ReplaceAll(n, mod+"pkg/", "") }
 
@@ -387,7 +395,7 @@ func main() {
 			}
 		}
 	}
-	wrows, carriers := analyseWriters(<-pkgsCh, rawMod)
+	wrows, carriers, iocalls := analyseWriters(<-pkgsCh, rawMod)
 	for _, r := range wrows {
 		if _, ok := idx[r.fn]; !ok {
 			problem("writer site %s (%s %q) in %s: function is not a node of the call graph", r.callee, r.kind, r.text, r.fn)
@@ -492,8 +500,8 @@ func main() {
 		fmt.Fprintf(&b, "\n  (%d, %s, %s, %s, %v, %s)", idx[s.fn], leanStr(short(s.fn)), leanStr(s.pkg), leanStr(s.prim), s.isLit, leanStr(s.arg))
 	}
 	b.WriteString("]\n\n")
-	b.WriteString("/-- One data argument of one call that can hand data to the device connection (found by type, see\ntranslate/callgraph/writers.go): `node`/`fn` the enclosing function, `callee` the device-I/O function or\nthe carrier called, `cls` send | connect | exec | assemble | carrier | carrier-dyn | method-value |\nunclassified, `arg` the index of the argument (0 for a receiver), `kind` lit | param | expr. -/\n")
-	b.WriteString("structure WSite where\n  node : Nat\n  fn : String\n  pkg : String\n  callee : String\n  cls : String\n  arg : Nat\n  kind : String\n  text : String\n  owner : String\n  pidx : Nat\n  deriving DecidableEq, Repr\n\n")
+	b.WriteString("/-- One data argument of one call that can hand data to the device connection (found by type, see\ntranslate/callgraph/writers.go): `node`/`fn` the enclosing function, `callee` the device-I/O function or\nthe carrier called, `cls` send | connect | exec | assemble | carrier | carrier-dyn | method-value |\nunclassified, `arg` the index of the argument (0 for a receiver), `kind` lit | param | flow; `sinks` the foreign\ndevice-I/O functions (#argument) the data finally reaches; `leaves` (kind flow) what the data is made of —\nconstants, parameters, foreign calls, device replies, source packages of the module (translate/callgraph/leaves.go);\n`text` of a flow row is the source expression, as documentation only. -/\n")
+	b.WriteString("structure WSite where\n  node : Nat\n  fn : String\n  pkg : String\n  callee : String\n  cls : String\n  arg : Nat\n  kind : String\n  text : String\n  owner : String\n  pidx : Nat\n  sinks : List String\n  leaves : List String\n  deriving DecidableEq, Repr\n\n")
 	b.WriteString("def writerSites : List WSite := [")
 	for i, r := range wrows {
 		if i > 0 {
@@ -503,8 +511,17 @@ func main() {
 		if arg < 0 {
 			arg = 0
 		}
-		fmt.Fprintf(&b, "\n  ⟨%d, %s, %s, %s, %s, %d, %s, %s, %s, %d⟩", idx[r.fn], leanStr(short(r.fn)), leanStr(r.pkg), leanStr(short(r.callee)),
-			leanStr(r.class), arg, leanStr(r.kind), leanStr(r.text), leanStr(short(r.owner)), r.pidx)
+		fmt.Fprintf(&b, "\n  ⟨%d, %s, %s, %s, %s, %d, %s, %s, %s, %d, %s, %s⟩", idx[r.fn], leanStr(short(r.fn)), leanStr(r.pkg), leanStr(short(r.callee)),
+			leanStr(r.class), arg, leanStr(r.kind), leanStr(r.text), leanStr(short(r.owner)), r.pidx, leanList(r.sinks), leanList(r.leaves))
+	}
+	b.WriteString("]\n\n")
+	b.WriteString("/-- One entry per CALL that touches the connection itself (not through a carrier): (node, package, foreign function, class). -/\n")
+	b.WriteString("def ioCalls : List (Nat × String × String × String) := [")
+	for i, c := range iocalls {
+		if i > 0 {
+			b.WriteString(",")
+		}
+		fmt.Fprintf(&b, "\n  (%d, %s, %s, %s)", idx[c.fn], leanStr(c.pkg), leanStr(short(c.callee)), leanStr(c.class))
 	}
 	b.WriteString("]\n\n")
 	b.WriteString("/-- (node, function, parameter index): the parameter flows into a data argument of a device-I/O call -/\n")
